@@ -115,6 +115,91 @@ class SetSpec(object):
         return {'path': case[1], 'name': case[2], 'val': domadapt.enc_py(case[3])}
 
 
+DECL = {'encoding': (str, None), 'version': (str, ['1.0']), 'preamble': (str, None), 'preamble_encoding': (str, None),
+        'preamble_indent': (int, None), 'preamble_line_endings': (str, ['dos', 'unix']),
+        'preamble_mimetype': (str, ['text/markdown', 'text/plain']), 'meta': (dict, None), 'meta_encoding': (str, None),
+        'meta_format': (str, ['json']), 'diff': (bytes, None), 'diff_encoding': (str, None),
+        'diff_line_endings': (str, ['dos', 'unix']), 'diff_type': (str, ['binary', 'text'])}
+# which attributes each section class has (own options + forwarded subsections)
+OWN = {'m': ['encoding', 'version'] + [n for n in DECL if n.startswith(('preamble', 'meta'))],
+       'c0': ['encoding'] + [n for n in DECL if n.startswith(('preamble', 'meta'))],
+       'c0f0': ['encoding'] + [n for n in DECL if n.startswith(('meta', 'diff'))]}
+
+
+class CtorSpec(SetSpec):
+    """constructor attributes: `DiffX(**attrs)`, `add_change(**attrs)`, `add_file(**attrs)` are
+    `setattr` on the fresh section, an `AttributeError` becoming DiffXUnknownOptionError"""
+
+    def cases(self, ctx, budget, rng):
+        nset, _ = budget
+        for _ in range(max(200, nset // 6)):
+            yield (rng.choice(['m', 'c0', 'c0f0']), rng.choice(NAMES), rng.choice(VALS))
+
+    def base(self, path, attrs=None):
+        from pydiffx.dom import DiffX
+        attrs = attrs or {}
+        if path == 'm':
+            return DiffX(**attrs)
+        d = DiffX()
+        if path == 'c0':
+            d.add_change(**attrs)
+        else:
+            d.add_change().add_file(**attrs)
+        return d
+
+    def run(self, case):
+        path, name, val = case
+        try:
+            return 'ok', self.base(path, {name: copy.deepcopy(val)})
+        except Exception as e:   # noqa
+            return 'err:' + err_class(e), None
+
+    def request(self, case):
+        path, name, val = case
+        return 'domset %s %s %s %s' % (domadapt.enc_tree(domadapt.dump(self.base(path))), path, name.encode().hex(),
+                                       domadapt.enc_py(val))
+
+    def impl(self, case):
+        r, o = self.run(case)
+        return r if o is None else r + ' ' + domadapt.canon_tree(domadapt.dump(o))
+
+    def model(self, case, resp):
+        k, _, tr = resp.partition(' ')
+        if k != 'ok':
+            return k          # no object exists after a failing constructor
+        return k + ' ' + domadapt.canon_tree(domadapt.dec_tree(tr.split(' ')[-1]))
+
+    def oracle(self, case, impl_res):
+        path, name, val = case
+        r, o = self.run(case)
+        bad = []
+        if r == 'ok':
+            if name not in OWN[path]:
+                bad.append('unknown constructor attribute %r accepted by the %s constructor' % (name, path))
+            else:
+                ty, ch = DECL[name]
+                if not isinstance(val, ty) or (ch is not None and val not in ch):
+                    bad.append('constructor attribute %s = %r accepted although it is not a %s%s'
+                               % (name, val, ty.__name__, (' in %s' % ch) if ch else ''))
+                # same as assigning after construction
+                p = self.base(path)
+                setattr(target(p, path), name, copy.deepcopy(val))
+                if domadapt.canon_tree(domadapt.dump(p)) != domadapt.canon_tree(domadapt.dump(o)):
+                    bad.append('constructor attribute %s = %r differs from assigning it after construction' % (name, val))
+        elif name not in OWN[path] and r != 'err:unknown':
+            bad.append('unknown constructor attribute %r raised %s, not DiffXUnknownOptionError' % (name, r))
+        return [{'what': b, 'ctor': path, 'name': name, 'val': domadapt.enc_py(val)} for b in bad]
+
+    def key(self, case, impl_res):
+        return ('ctor', case[0], case[1], domadapt.enc_py(case[2]), impl_res.split(' ')[0])
+
+    def bucket(self, case, impl_res):
+        return 'ctor_' + impl_res.split(' ')[0]
+
+    def sample(self, case):
+        return {'ctor': case[0], 'name': case[1], 'val': domadapt.enc_py(case[2])}
+
+
 def perturb_one(rng, t):
     """change exactly one option value or one content; -> (tree, kind)"""
     u = copy.deepcopy(t)
@@ -236,14 +321,16 @@ def explore(ctx, escalate=False, hint=None):
             'unknown) x 25 candidate values of right and wrong type / choice, with tree snapshots around each assignment; '
             '%d tree pairs (identical copies and single-field perturbations of an option or a content at any depth, incl. '
             '1<->True retyping) for ==, !=, symmetry and to_bytes congruence; model vs implementation on both; distinct by '
-            '(section kind, attribute, value, outcome) / pair' % budget)
+            '(section kind, attribute, value, outcome) / pair; plus constructor attributes (DiffX / add_change / add_file with one '
+            'keyword) against the same model and against assignment after construction' % budget)
     r1 = base.explore_generic(ctx, SetSpec(), budget, rule, chunk=3000)
-    r2 = base.explore_generic(ctx, EqSpec(), budget, rule, chunk=3000)
-    for k in ('evaluations', 'distinct_nontrivial'):
-        r1[k] += r2[k]
-    r1['disagreements'] += r2['disagreements']
-    r1['violations'] += r2['violations']
-    r1['distribution'].update(r2['distribution'])
+    for spec in (EqSpec(), CtorSpec()):
+        r2 = base.explore_generic(ctx, spec, budget, rule, chunk=3000)
+        for k in ('evaluations', 'distinct_nontrivial'):
+            r1[k] += r2[k]
+        r1['disagreements'] += r2['disagreements']
+        r1['violations'] += r2['violations']
+        r1['distribution'].update(r2['distribution'])
     return r1
 
 
